@@ -222,6 +222,13 @@ _reg("elementwise_cross_product_3d", "gen_elementwise_cross_product_pyst_kernel_
 # ------------------------------------------------------------------------------------------------
 # differential stencils
 # ------------------------------------------------------------------------------------------------
+def _pref(rng, real_t, lo, hi):
+    """multiplier argument (prefactor, nu dt/dx^2, dt/dx, dt/2dx): uniform, but exactly zero one time in eight (inviscid run, coupling
+    switched off, paused clock): the kernel must then still WRITE its (zero) contribution over whatever the output held"""
+    v = rng.uniform(lo, hi)
+    return real_t(0.0) if rng.random() < 0.125 else real_t(v)
+
+
 def _ring_expect(name, ref, shape, reset, lead=0):
     """interior-1 closed form, plus zero on the ring when ghost-zone reset is on"""
     if reset:
@@ -231,7 +238,7 @@ def _ring_expect(name, ref, shape, reset, lead=0):
 
 def _mk_diff_flux(vector, reset):
     def make(K, A, shape, real_t, rng):
-        p = real_t(rng.uniform(0.05, 2.0))
+        p = _pref(rng, real_t, 0.05, 2.0)
         if not vector:
             kw = dict(diffusion_flux=A.out(shape), field=A.inp(shape), prefactor=p)
             return Case(K, kw, dict(diffusion_flux="out", field="in"),
@@ -246,7 +253,7 @@ def _mk_diff_flux(vector, reset):
 
 def _mk_diff_step(vector):
     def make(K, A, shape, real_t, rng):
-        a = real_t(rng.uniform(0.01, 0.3))
+        a = _pref(rng, real_t, 0.01, 0.3)
         if not vector:
             kw = dict(field=A.inout(shape), diffusion_flux=A.scratch(shape), nu_dt_by_dx2=a)
             return Case(K, kw, dict(field="inout", diffusion_flux="scratch"),
@@ -272,7 +279,7 @@ def _mk_adv_flux(K, A, shape, real_t, rng):
 def _mk_adv_step(vector):
     def make(K, A, shape, real_t, rng):
         d = len(shape)
-        c = real_t(rng.uniform(0.01, 0.5))
+        c = _pref(rng, real_t, 0.01, 0.5)
         if not vector:
             kw = dict(field=A.inout(shape), advection_flux=A.scratch(shape), velocity=A.inp((d,) + shape, kind="vel_ties" if rng.random() < 0.5 else "noise"), dt_by_dx=c)
             return Case(K, kw, dict(field="inout", advection_flux="scratch", velocity="in"),
@@ -287,14 +294,14 @@ def _mk_adv_step(vector):
 
 
 def _mk_inplane_curl(K, A, shape, real_t, rng):
-    p = real_t(rng.uniform(0.1, 5.0))
+    p = _pref(rng, real_t, 0.1, 5.0)
     kw = dict(curl=A.out(shape), field=A.inp((2,) + shape), prefactor=p)
     return Case(K, kw, dict(curl="out", field="in"), lambda i: {"curl": (ops.inplane_curl2(i["field"], float(p)), m_int(shape, 1))}, smooth=("field",))
 
 
 def _mk_outplane_curl(reset):
     def make(K, A, shape, real_t, rng):
-        p = real_t(rng.uniform(0.1, 5.0))
+        p = _pref(rng, real_t, 0.1, 5.0)
         s = (2,) + shape
         kw = dict(curl=A.out(s), field=A.inp(shape), prefactor=p)
         return Case(K, kw, dict(curl="out", field="in"), lambda i: _ring_expect("curl", ops.outplane_curl2(i["field"], float(p)), s, reset, 1), smooth=("field",))
@@ -303,7 +310,7 @@ def _mk_outplane_curl(reset):
 
 def _mk_curl3(reset):
     def make(K, A, shape, real_t, rng):
-        p = real_t(rng.uniform(0.1, 5.0))
+        p = _pref(rng, real_t, 0.1, 5.0)
         s = (3,) + shape
         kw = dict(curl=A.out(s), field=A.inp(s), prefactor=p)
         return Case(K, kw, dict(curl="out", field="in"), lambda i: _ring_expect("curl", ops.curl3(i["field"], float(p)), s, reset, 1), smooth=("field",))
@@ -324,7 +331,7 @@ def _curl_of(d, Fv, p):
 
 def _mk_upd_forcing(K, A, shape, real_t, rng):
     d = len(shape)
-    p = real_t(rng.uniform(0.05, 3.0))
+    p = _pref(rng, real_t, 0.05, 3.0)
     sw = shape if d == 2 else (3,) + shape
     kw = dict(vorticity_field=A.inout(sw), velocity_forcing_field=A.inp((d,) + shape), prefactor=p)
     return Case(K, kw, dict(vorticity_field="inout", velocity_forcing_field="in"),
@@ -334,7 +341,7 @@ def _mk_upd_forcing(K, A, shape, real_t, rng):
 
 def _mk_upd_penalised(K, A, shape, real_t, rng):
     d = len(shape)
-    p = real_t(rng.uniform(0.05, 3.0))
+    p = _pref(rng, real_t, 0.05, 3.0)
     sw = shape if d == 2 else (3,) + shape
     sv = (d,) + shape
     kw = dict(vorticity_field=A.inout(sw), penalised_velocity_field=A.inp(sv), velocity_field=A.inp(sv), prefactor=p)
@@ -353,7 +360,7 @@ def stretching_flux(w, u, p):
 
 
 def _mk_stretch_flux(K, A, shape, real_t, rng):
-    p = real_t(rng.uniform(0.05, 2.0))
+    p = _pref(rng, real_t, 0.05, 2.0)
     s = (3,) + shape
     kw = dict(vorticity_stretching_flux_field=A.out(s), vorticity_field=A.inp(s), velocity_field=A.inp(s), prefactor=p)
     return Case(K, kw, dict(vorticity_stretching_flux_field="out", vorticity_field="in", velocity_field="in"),
@@ -362,7 +369,7 @@ def _mk_stretch_flux(K, A, shape, real_t, rng):
 
 
 def _mk_stretch_euler(K, A, shape, real_t, rng):
-    p = real_t(rng.uniform(0.01, 0.3))
+    p = _pref(rng, real_t, 0.01, 0.3)
     s = (3,) + shape
     kw = dict(vorticity_field=A.inout(s), velocity_field=A.inp(s), vorticity_stretching_flux_field=A.scratch(s), dt_by_2_dx=p)
     return Case(K, kw, dict(vorticity_field="inout", velocity_field="in", vorticity_stretching_flux_field="scratch"),
@@ -373,7 +380,7 @@ def _mk_stretch_euler(K, A, shape, real_t, rng):
 def _mk_stretch_rk3(K, A, shape, real_t, rng, ctx=None):
     """closed form is C20's business (and finding F5); here only the region/inputs audit"""
     ctx["midstep"][...] = (rng.standard_normal(ctx["midstep"].shape) * 50).astype(real_t)
-    p = real_t(rng.uniform(0.01, 0.3))
+    p = _pref(rng, real_t, 0.01, 0.3)
     s = (3,) + shape
     kw = dict(vorticity_field=A.inout(s), velocity_field=A.inp(s), vorticity_stretching_flux_field=A.scratch(s), dt_by_2_dx=p)
     return Case(K, kw, dict(vorticity_field="inout", velocity_field="in", vorticity_stretching_flux_field="scratch"),
